@@ -132,16 +132,16 @@ def sym(case):
             h.close()
         info = {'cache': ctype, 'pre': pre}
         for step in range(nops):
-            op = ctx.choice(f'op{step}', 4)       # 0 get, 1 get_or_compute, 2 forced, 3 computer raises
+            op = ctx.choice(f'op{step}', 5)       # 0 get, 1 get_or_compute, 2 forced, 3 computer raises, 4 forced + raises
             ki = ctx.choice(f'key{step}', 2)
             ci = ctx.choice(f'cache{step}', 3) if step else 0
             key, cch, mdl = keys[ki], caches[ci], model[ci]
-            trace.append((['get', 'get_or_compute', 'force', 'raising'][op], f'k{ki + 1}', ['main', 'sub a', 'sub b'][ci]))
+            trace.append((['get', 'get_or_compute', 'force', 'raising', 'force+raising'][op], f'k{ki + 1}', ['main', 'sub a', 'sub b'][ci]))
             info = {'cache': ctype, 'pre': pre, 'trace': list(trace)}
             foreign = (ci == 0 and foreign_state[0] and bool(key == k1)) if pre == 'other' else False
             calls = []
 
-            def computer(raise_=(op == 3)):
+            def computer(raise_=(op in (3, 4))):
                 calls.append(1)
                 if raise_:
                     raise Raised()
@@ -152,7 +152,7 @@ def sym(case):
                 if op == 0:
                     got = ('ret', cch.get(key))
                 else:
-                    got = ('ret', cch.get_or_compute(key, computer, force=(op == 2)))
+                    got = ('ret', cch.get_or_compute(key, computer, force=(op in (2, 4))))
             except Raised:
                 got = ('raised', None)
             except C.CacheException:
@@ -185,6 +185,10 @@ def sym(case):
                 ctx.check_concrete(ok, 'compute-count', dict(info, got=got[0], calls=len(calls), forced=True))
                 if ok:
                     mdl[key] = calls[1]
+            elif op == 4:
+                # a forced computation that raises stores nothing: whatever was stored intact stays (checked by the
+                # final get of every model entry)
+                ctx.check_concrete(got[0] == 'raised' and len(calls) == 1, 'compute-count', dict(info, raising=True, forced=True, got=got[0]))
             else:
                 if present:
                     ctx.check_concrete(got[0] == 'ret' and not calls, 'compute-count', dict(info, raising=True, got=got[0]))
@@ -292,5 +296,5 @@ def pool(case):
 
 
 def run_case(case, tier):
-    ctx = explore.explore(make_harness(case, tier), max_paths=20000, time_budget_s=500, decide_timeout_ms=30000)
+    ctx = explore.explore(make_harness(case, tier), max_paths=(20000 if tier == 'quick' else 800000), time_budget_s=(500 if tier == 'quick' else 3600), decide_timeout_ms=30000)
     return driver.result_from_ctx(ctx)
